@@ -29,7 +29,6 @@ var c19Justified = map[string]string{
 	"pdf.(*scanner).ReadObject|discarded|pdf.(*scanner).PeekN":                                           "refill latches every non-EOF error in scanner.err; ReadIndirectObject's next read (endobj) returns it, and inside object streams a stream keyword is not legal so the dictionary is the complete object",
 	"pdf.(*scanner).tryHex|discarded|pdf.(*scanner).PeekN":                                               "refill latches the error in scanner.err; ReadName's next PeekN returns it",
 	"pdf.(*scanner).PeekN|unchecked|pdf.(*scanner).refill":                                               "refill latches every non-EOF error in scanner.err and returns it on every later call; PeekN drops it only when the requested bytes are already buffered (rule C19-R5)",
-	"pdf.(*scanner).ScanBytes|swallowed|pdf.(*scanner).refill":                                           "continues only while buffered bytes exist; a latched error is returned by the next refill when the buffer is empty (rule C19-R5)",
 	"pdf.ParseString|discarded|pdf.(*scanner).PeekN":                                                     "the scanner reads from an in-memory bytes.Reader",
 	"pdf.ParseName|discarded|pdf.(*scanner).PeekN":                                                       "the scanner reads from an in-memory bytes.Reader",
 	"pdf/internal/filter/dct/jpeg.(*decoder).fill|swallowed|io.Reader.Read":                              "an error delivered together with data is dropped; the source-error latch below the filter chain keeps it and sourceAwareReader reports it (rule C19-R3)",
